@@ -8,10 +8,11 @@ mod c09;
 mod c10;
 mod c11;
 mod c12;
+mod c20;
 mod net;
 mod regions;
 mod sim;
 
 fn main() {
-    lrv_core::runner::main(&[&c04::C04, &c05::C05, &c06::C06, &c07::C07, &c08::C08, &c09::C09, &c10::C10, &c11::C11, &c12::C12]);
+    lrv_core::runner::main(&[&c04::C04, &c05::C05, &c06::C06, &c07::C07, &c08::C08, &c09::C09, &c10::C10, &c11::C11, &c12::C12, &c20::C20]);
 }
